@@ -60,6 +60,11 @@ CLAIMED = {
         note="Bounded as stated; the empty text is skipped. View trusted (unicode-segmentation cluster lengths). A hang is caught by the 5 s per-case watchdog.",
         technique="TLA+ window stepping machine model-checked with TLC; TLC-enumerated texts/configurations replayed; recorded results validated by a TLC trace spec",
         ref="6 C16"),
+    "C18": dict(
+        text="spec/Lcs.tla defines the LCS length as a row fold and ValidMatching (pairs inside both texts, strictly increasing in both coordinates, equal words - case-folded when requested -, as many pairs as the LCS length); MC_Lcs explores a machine that grows a common subsequence pair by pair for all pairs of word sequences up to length 3 over {x, X, y} and checks that no common subsequence exceeds the fold and that the fold satisfies the Bellman conditions (it is the maximum) and is symmetric. Binding: all pairs up to length 3/4 x ignore_case x separator choices and random longer texts go through the real match_words and edited_words; Trace_Lcs checks ValidMatching, the word counts, and that edited_words is exactly the complement of the case-sensitive matching.",
+        note="Bounded as stated; words split on ASCII whitespace (other whitespace is outside 'pairs of word sequences'); case folding via to_lowercase is part of the view.",
+        technique="TLA+ LCS fold and matching predicate model-checked with TLC; TLC-enumerated pairs replayed; recorded results validated by a TLC trace spec",
+        ref="6 C18"),
     "C19": dict(
         text="TLC explores every behaviour of the greedy training machine spec/BpeTrain.tla (merge any adjacent pair of maximal positive recounted frequency, left-to-right non-overlapping replacement) for small corpora with repeats/overlaps that are exhausted before the requested number of merges; invariants: no duplicate entry, table well-formed, at most the requested merges; termination; negative control (zero-frequency merging) violates NoDuplicates. CountReduce.tla covers the counting threads under every schedule. Binding: TLC-enumerated and random corpora are written to files, the real train_bpe runs with 0/1/3 threads, and each written table is validated by Trace_BpeTrain as a behaviour of the spec (ids 0..n-1, every entry a max-positive pair of the corpus as segmented so far; tie choice and split searched by TLC); the tables are then loaded into real tokenizers and checked with the C02/C04 clauses.",
         note="Bounded: <=3 distinct words (pool of 8, <=4 symbols) exhaustively; random <=6 words of <=7 letters over <=3 letters, <=24 merges. Corpora restricted to ASCII letters and single spaces (clean/NFKC identity). Thread schedules of the real counting stage are not controlled (result must be valid for each thread count).",
@@ -75,6 +80,11 @@ CLAIMED = {
         note="Bounded as stated. Outputs are compared at code-point level (the view of the input gives each cluster's code points). Mixed clusters in grapheme mode are outside the property (skipped, counted).",
         technique="TLA+ spec of clean/word boundaries model-checked with TLC; TLC-enumerated strings replayed; recorded outputs validated by a TLC trace spec",
         ref="6 C11"),
+    "C13": dict(
+        text="spec/Metrics.tla gives F-beta from counts as exact rationals (with the max(.,1) conventions), micro and sequence-averaged aggregation as folds, and ties the counts to the other specs: whitespace counts = set comparison of Ws!Ops(input,target) and Ws!Ops(input,prediction) per mode; spelling counts constrained by the LCS word matching (tp+fn = unmatched target words, fp <= changed input words, prediction = target => fp = fn = 0, unchanged prediction of an erroneous input => tp = 0, empty flag); accuracy, binary F1, mean (normalised) edit distance by their formulas (EditDist!Dist). Binding: TLC enumerates all word-sequence triples up to 2 words over {x, y, xy} x beta, all respacings up to 3 characters x modes, all boolean vector pairs; random lists of sequences; the real functions (and a guarded hook for the per-sequence spelling counts) are called and Trace_Metrics checks totality (no panic), finiteness, [0,1], calibration, counts and both aggregations.",
+        note="Bounded as stated; NFKC-stable alphabets only (NFKC mappings that introduce whitespace are out of scope); rational comparison within 1e-6 per rounding; whitespace F1 returning Err for texts that do not align is accepted (not a panic). Building-block specs are model-checked (MC_Lcs, MC_Ws, MC_EditDist).",
+        technique="TLA+ spec of counts/aggregation on top of Lcs/Ws/EditDist specs; TLC-enumerated inputs replayed; recorded results validated by a TLC trace spec with exact rational arithmetic",
+        ref="6 C13"),
     "C14": dict(
         text="spec/Ws.tla models whitespace corruption as one coin per character with probability classes {0, between, 1}; MC_Ws checks that every corruption reachable by some coin vector from a clean text is clean, content preserving and repaired exactly by Ops/Repair. Binding: all clean texts up to 5/7 characters x 8 probability pairs x 3 seeds x both modes and random clean texts go through the real preprocessing(WhitespaceCorruption) and the real whitespace-correction task; Trace_Ws checks target untouched, same non-whitespace characters, output clean, operations/repair recover the text, one label per input character equal to the operations, determinism in (text, seed), probability-0 clauses, and (mechanism) reachability by some coin vector.",
         note="Bounded as stated; probabilities abstracted to three classes for the reachability (DRIFT) check; the task is run with a byte tokenizer with one prefix and one suffix token.",
@@ -135,7 +145,7 @@ def main():
     print("MANIFEST.json: %d checks, %d not_applicable" % (len(checks), len(na)))
 
 
-HOOK_COMMITS = ["3613811", "f304319"]
+HOOK_COMMITS = ["3613811", "f304319", "2211f72"]
 
 if __name__ == "__main__":
     main()
